@@ -275,11 +275,16 @@ func (fr *frame) runInstrs(st *PState, b, pred *ssa.BasicBlock, visits map[*ssa.
 			fr.pan(st, "explicit panic")
 			return
 		case *ssa.RunDefers:
+			if ds := st.takeDefers(fr); len(ds) > 0 {
+				rest := i + 1
+				fr.runDefers(st, ds, func(st2 *PState) { fr.resume(st2, b, rest, visits) })
+				return
+			}
 			continue
 		case *ssa.Defer:
-			// deferred calls: only effect-free ones (iterator Close, telemetry) are accepted
+			// effect-free deferred calls (iterator Close, telemetry) are dropped; the others run at RunDefers
 			if !fr.deferIsBenign(st, ins) {
-				fr.top.notes["defer ignored in "+ShortName(fr.fn.String())+": "+ins.String()] = true
+				st.deferred = append(st.deferred, deferRec{fr, ins})
 			}
 			continue
 		case *ssa.Go, *ssa.Select, *ssa.Send:
@@ -352,10 +357,15 @@ func (fr *frame) resume(st *PState, b *ssa.BasicBlock, from int, visits map[*ssa
 			fr.pan(st, "explicit panic")
 			return
 		case *ssa.RunDefers:
+			if ds := st.takeDefers(fr); len(ds) > 0 {
+				rest := i + 1
+				fr.runDefers(st, ds, func(st2 *PState) { fr.resume(st2, b, rest, visits) })
+				return
+			}
 			continue
 		case *ssa.Defer:
 			if !fr.deferIsBenign(st, ins) {
-				fr.top.notes["defer ignored in "+ShortName(fr.fn.String())+": "+ins.String()] = true
+				st.deferred = append(st.deferred, deferRec{fr, ins})
 			}
 			continue
 		case *ssa.Go, *ssa.Select, *ssa.Send:
@@ -388,6 +398,35 @@ func (fr *frame) returnOrdinal(r *ssa.Return) int {
 		}
 	}
 	return 0
+}
+
+// takeDefers removes and returns the pending deferred calls of frame fr (in registration order).
+func (st *PState) takeDefers(fr *frame) []*ssa.Defer {
+	var mine []*ssa.Defer
+	var rest []deferRec
+	for _, r := range st.deferred {
+		if r.fr == fr {
+			mine = append(mine, r.d)
+		} else {
+			rest = append(rest, r)
+		}
+	}
+	st.deferred = rest
+	return mine
+}
+
+// runDefers executes the deferred calls last-in first-out on the normal return path (SSA values are immutable, so
+// evaluating the arguments now equals evaluating them at the defer statement; closures read captured variables now,
+// as Go does). Deferred calls on panicking paths are not modelled (a panic is an outcome of its own).
+func (fr *frame) runDefers(st *PState, ds []*ssa.Defer, k func(*PState)) {
+	if len(ds) == 0 {
+		k(st)
+		return
+	}
+	d := ds[len(ds)-1]
+	fr.call(st, d, &d.Call, func(st2 *PState, _ Val) {
+		fr.runDefers(st2, ds[:len(ds)-1], k)
+	})
 }
 
 func (fr *frame) deferIsBenign(st *PState, d *ssa.Defer) bool {
